@@ -3,6 +3,14 @@ import PdModel
 def dispatch (line : String) : String :=
   match Proto.tokens line with
   | "visitor" :: args => Visitor.handle args
+  | "mro" :: args => Mro.handle args
+  | "registry" :: args => Registry.handle args
+  | "inventory" :: args => Inventory.handle args
+  | "signature" :: args => Signature.handle args
+  | "glob" :: args => Glob.handle args
+  | "privacy" :: args => Privacy.handle args
+  | "lineno" :: args => Lineno.handle args
+  | "pyval" :: args => Pyval.handle args
   | _ => "bad-op"
 
 partial def loop (h : IO.FS.Stream) (out : IO.FS.Stream) : IO Unit := do
